@@ -195,3 +195,58 @@ Theorem C09_conv_from_rs_matches_model w n pb from fuel :
   match Cast.I_from_int pb w n from with Ret r => Done r | Panic => Panicked end.
 Proof. exact (conv_bint_from_prim w n pb from fuel). Qed.
 Print Assumptions C09_conv_from_rs_matches_model.
+(* ---- tie to the source, bnum -> bnum: the casts BETWEEN bnum integer types - buint_as_different_digit_bigint! (/repo/src/buint/cast.rs) and
+   bint_as_different_digit_bigint! (/repo/src/bint/cast.rs), each macro body translated ONCE with both digit widths as parameters (w = the
+   target's $Digit::BITS, ow = the source's $OtherDigit::BITS; the instantiation lists of src/lib.rs are checked), the same-digit impls
+   `CastFrom<$BUint<M>|$BInt<M>> for $BUint<N>|$BInt<N>`, `CastFrom<bool|char>` and as_bint! at bool / char - REGENERATED on every run
+   (Generated/XcastGen.v, tools/rs2v_xcast.py; vocabulary Model/Imp.v + Model/ImpXcast.v) compute exactly the model's functions, for both
+   values of the model's overflow-check flag, all power-of-two digit widths, all sizes and a budget >= both sizes: they neither index
+   out of bounds nor divide by zero nor shift by >= the digit width nor run out of budget.  The last conjunct is the trait resolution
+   (same digit type / another one) against the model's dispatcher Cast.cast, which the `cast` operation of the C09 table runs. ---- *)
+From Bnum.Generated Require Import XcastGen.
+From Bnum.Proofs Require Import XcastGenTieC09.
+Theorem C09_xcast_rs_matches_model w lg ow lg' : 0 <= lg -> w = 2 ^ lg -> 0 <= lg' -> ow = 2 ^ lg' ->
+  (* different digit types (source: digit width ow, m digits; target: digit width w, n digits) *)
+  (forall dbg n m from fuel, length from = m -> (n <= fuel)%nat -> (m <= fuel)%nat ->
+     XcastGen.U_castd_U w (Z.of_nat n) fuel ow (Z.of_nat m) from =
+     match Cast.U_castd_U dbg ow from w n with Ret r => Done r | Panic => Panicked end) /\
+  (forall dbg n m from fuel, length from = m -> (n <= fuel)%nat -> (m <= fuel)%nat ->
+     XcastGen.I_castd_U w (Z.of_nat n) fuel ow (Z.of_nat m) from =
+     match Cast.I_castd_U dbg ow from w n with Ret r => Done r | Panic => Panicked end) /\
+  (forall dbg n m from fuel, length from = m -> (n <= fuel)%nat -> (m <= fuel)%nat ->
+     XcastGen.U_castd_I w (Z.of_nat n) fuel ow (Z.of_nat m) from =
+     match Cast.U_castd_I dbg ow from w n with Ret r => Done r | Panic => Panicked end) /\
+  (forall dbg n m from fuel, length from = m -> (n <= fuel)%nat -> (m <= fuel)%nat ->
+     XcastGen.I_castd_I w (Z.of_nat n) fuel ow (Z.of_nat m) from =
+     match Cast.I_castd_I dbg ow from w n with Ret r => Done r | Panic => Panicked end) /\
+  (* same digit type *)
+  (forall n m from fuel, length from = m ->
+     XcastGen.U_cast_U w (Z.of_nat n) fuel (Z.of_nat m) from =
+     match Cast.U_cast_U from n with Ret r => Done r | Panic => Panicked end) /\
+  (forall n m from fuel, length from = m ->
+     XcastGen.U_cast_I w (Z.of_nat n) fuel (Z.of_nat m) from =
+     match Cast.U_cast_I w from n with Ret r => Done r | Panic => Panicked end) /\
+  (forall n m from fuel, length from = m ->
+     XcastGen.I_cast_U w (Z.of_nat n) fuel (Z.of_nat m) from =
+     match Cast.I_cast_U from n with Ret r => Done r | Panic => Panicked end) /\
+  (forall n m from fuel, length from = m ->
+     XcastGen.I_cast_I w (Z.of_nat n) fuel (Z.of_nat m) from =
+     match Cast.I_cast_I w from n with Ret r => Done r | Panic => Panicked end) /\
+  (* bool, char *)
+  (forall n b fuel, XcastGen.U_from_bool w (Z.of_nat n) fuel b = Done (Cast.U_from_bool n b)) /\
+  (forall n b fuel, XcastGen.I_from_bool w (Z.of_nat n) fuel b = Done (Cast.I_from_bool n b)) /\
+  (forall n c fuel, XcastGen.U_from_char w (Z.of_nat n) fuel c =
+     match Cast.U_from_char w n c with Ret r => Done r | Panic => Panicked end) /\
+  (forall n c fuel, XcastGen.I_from_char w (Z.of_nat n) fuel c =
+     match Cast.I_from_char w n c with Ret r => Done r | Panic => Panicked end) /\
+  (* trait resolution: the dispatcher of the hand model, Cast.cast (what the operation `cast` of the C09 table runs) *)
+  (forall dbg (ss ds : bool) n m from fuel, length from = m -> (n <= fuel)%nat -> (m <= fuel)%nat ->
+     (match ss, ds with
+      | false, false => XcastGen.cast_UU
+      | true, false => XcastGen.cast_UI
+      | false, true => XcastGen.cast_IU
+      | true, true => XcastGen.cast_II
+      end) w (Z.of_nat n) fuel ow (Z.of_nat m) from =
+     match Cast.cast dbg ow w n ss ds from with Ret r => Done r | Panic => Panicked end).
+Proof. exact (xcast_C09_match_model w lg ow lg'). Qed.
+Print Assumptions C09_xcast_rs_matches_model.
